@@ -22,7 +22,7 @@ from vlib import Result, enc_list, enc_ilist, f2b, Toks, close
 
 PROP = 'C17'
 META = {
-    'level_text': 'Lean 4 theorems for any linearly ordered field, any number of phases, M_i > 0, f_i >= 0, sum f = 1: min M <= W_lower <= HS_lower <= HS_upper <= W_upper <= max M for the public averaging functions (tangent-line inequality summed with weights; the code\'s Ak form proved equal to 1/sum f/(M+2g) - 2g), invariance of all five rules under List.Perm of the phase rows, single phase => that mobility, labyrinth = upper Wiener at factor 1 and <= it for every real factor >= 1 (and after the clipping setter), exclude/predefined act on the rows whose stable-phase name matches and never fail for database-phase names in single- or multi-phase regions, and any history of evaluations at a cached point returns for each configuration the answer on the original record and leaves the record unchanged; witnesses prove that the code as found violated the by-name and the twice=once clauses. For many points through one shared hash table (Homog.runPipeline = the HashTable machine of KawinV.HashCache composed with the per-point evaluation), for every thermodynamics function and every history of enable/clear/precision changes and scalar or array calls: each answer is the fresh (uncached) evaluation, under the call's rule and post-processing, of a point whose composition coordinates and temperature all differ by less than 10^-s from the point asked for (equal keys of the code's key, which scales composition AND temperature by 10^s, force that for non-negative coordinates), of the point itself with caching off, and asking again gives the same answer; a key that leaves the temperature unscaled is proved to merge T and T+0.8 K at every precision. The model is tied to HomogenizationParameters.py by differential correspondence on every run and the property is evaluated on the implementation against an independent scalar by-name reference.',
+    'level_text': 'Lean 4 theorems for any linearly ordered field, any number of phases, M_i > 0, f_i >= 0, sum f = 1: min M <= W_lower <= HS_lower <= HS_upper <= W_upper <= max M for the public averaging functions (tangent-line inequality summed with weights; the code\'s Ak form proved equal to 1/sum f/(M+2g) - 2g), invariance of all five rules under List.Perm of the phase rows, single phase => that mobility, labyrinth = upper Wiener at factor 1 and <= it for every real factor >= 1 (and after the clipping setter), exclude/predefined act on the rows whose stable-phase name matches and never fail for database-phase names in single- or multi-phase regions, and any history of evaluations at a cached point returns for each configuration the answer on the original record and leaves the record unchanged; witnesses prove that the code as found violated the by-name and the twice=once clauses. For many points through one shared hash table (Homog.runPipeline = the HashTable machine of KawinV.HashCache composed with the per-point evaluation), for every thermodynamics function and every history of enable/clear/precision changes and scalar or array calls: each answer is the fresh (uncached) evaluation, under the rule and post-processing of the call, of a point whose composition coordinates and temperature all differ by less than 10^-s from the point asked for (equal keys of the key of the code, which scales composition AND temperature by 10^s, force that for non-negative coordinates), of the point itself with caching off, and asking again gives the same answer; a key that leaves the temperature unscaled is proved to merge T and T+0.8 K at every precision. The model is tied to HomogenizationParameters.py by differential correspondence on every run and the property is evaluated on the implementation against an independent scalar by-name reference.',
     'level_note': 'Trusted: Lean kernel + Mathlib, axioms propext/Classical.choice/Quot.sound; the hand model KawinV.Homog equals the NumPy code only as far as this run compared them; exact-field arithmetic instead of IEEE doubles (ordering checked on doubles with rtol 1e-9 scaled by the largest mobility because the upper Hashin-Shtrikman form cancels); the bound chain is proved for defined (positive) mobilities, for undefined entries (-1 -> tiny/max) only the within-pair orderings; columns where every phase is undefined (NaN from the lower HS rule) and fractions off the simplex after `exclude` are outside the bound clauses; the equilibrium calculation that fills the record is pycalphad and is only exercised on a few shipped-database points; the constructor does not clip labyrinthFactor (documented range [1,2] is assumed there, the setter is modelled); the shared-table theorem is over exact fields with the unbounded integer key (HashCache.keyExact); the driver runs the 64-bit key (keyCast 64, equal to it for |v*10^s| < 2^63: C09 keyCast_faithful) and is compared with the implementation on which record serves which point; Python hash of the integer tuple is taken as injective; the cached-vs-fresh oracle allows for the rounding of the double product v*10^s (4e-16 relative).',
     'technique': 'Lean 4 proof over ordered fields (+ real powers) + model/implementation differential correspondence + by-name scalar reference',
     'design_ref': 'DESIGN.md section 6, C17',
